@@ -5,7 +5,7 @@
  * and for a load: the scan's event log through hook H3
  *   CELLS <total rows over all orders> then "C" per scan_module call, "O v" outer iteration (orders_since_last_valid),
  *   "W cell v" row processed (cell = rows before that order + row; v = visit counter), "D cell v" row-delay adjustment
- *   then one frame is rendered: FRAME <ret> USEC <t>
+ *   then one frame is rendered: FRAME <ret> USEC <t>, and 40 more: FRAMES <n> WORSTUSEC <slowest of them>
  *   ENDIN
  */
 #include "vcommon.h"
@@ -17,6 +17,8 @@
 static void on_alarm(int sig) { (void)sig; puts("TIMEOUT"); fflush(stdout); _exit(3); }
 
 extern void (*libxmp_verif_scanlog)(int what, int ord, int row, int value);
+extern unsigned long libxmp_verif_mixer_iters;
+#include "mixer.h"
 static struct context_data *gctx;
 static long cellbase[XMP_MAX_MOD_LENGTH + 1];
 static int have_cells;
@@ -72,7 +74,23 @@ int main(void)
 			printf("RET %d USEC %ld RSSKB %ld\n", ret, usec() - t0, rsskb() - r0);
 			if (ret == 0) {
 				t0 = usec();
-				if (xmp_start_player(c, 44100, 0) == 0) { ret = xmp_play_frame(c); printf("FRAME %d USEC %ld\n", ret, usec() - t0); xmp_end_player(c); }
+				if (xmp_start_player(c, 44100, 0) == 0) {
+					long worst = 0, t1; int k;
+					ret = xmp_play_frame(c); printf("FRAME %d USEC %ld\n", ret, usec() - t0);
+					/* and a short passage: the slowest of the next 40 frames */
+					double worst_ratio = 0.0;
+					for (k = 0; k < 40 && ret == 0; k++) {
+						double bound, ratio;
+						libxmp_verif_mixer_iters = 0;
+						t1 = usec(); ret = xmp_play_frame(c); t1 = usec() - t1; if (t1 > worst) worst = t1;
+						/* hook H5: inner-loop iterations of this tick against maxvoc * 2 * ticksize */
+						bound = (double)gctx->p.virt.maxvoc * 2.0 * (gctx->s.ticksize > 0 ? gctx->s.ticksize : 1);
+						ratio = (double)libxmp_verif_mixer_iters / bound;
+						if (ratio > worst_ratio) worst_ratio = ratio;
+					}
+					printf("FRAMES %d WORSTUSEC %ld MIXRATIO %.6f\n", k, worst, worst_ratio);
+					xmp_end_player(c);
+				}
 				xmp_release_module(c);
 			}
 		}
